@@ -15,9 +15,9 @@ from ..fakesock import FakeRawSocket, Script, BudgetExceeded
 H = 24
 
 
-def frame_of(body):
-    hdr = bytearray(b"\x6f\x00" + bytes([body & 0xFF, body >> 8]) + bytes(range(4, 24)))
-    return bytes(hdr) + bytes(((i * 37 + 11) % 251) for i in range(body))
+def frame_of(body, salt=0):
+    hdr = bytearray(b"\x6f\x00" + bytes([body & 0xFF, body >> 8]) + bytes((i + salt) % 256 for i in range(4, 24)))
+    return bytes(hdr) + bytes(((i * 37 + 11 + salt) % 251) for i in range(body))
 
 
 def msg_of(n):
@@ -43,6 +43,36 @@ def run_recv(body, chunks, end, flen=None):
             out = {"kind": "exc", "comm": 1 if isinstance(ex, CommError) else 0, "cls": type(ex).__name__}
     return {"op": "recv", "body": body, "flen": H + body, "calls": sc.recv_calls, "out": out,
             "script": {"chunks": chunks if len(chunks) < 40 else chunks[:40] + ["..."], "end": end or "none"}}
+
+
+def run_recv_seq(calls):
+    """Several receive() calls on ONE Socket: calls = [(body, chunks, end)].  Each call finds a fresh frame at the current
+    position of the stream (the previous call either returned a whole frame or was ended by a socket error in the middle
+    of one).  Every call is one case for TraceSocket."""
+    from pycomm3.socket_ import Socket
+    from pycomm3.exceptions import CommError
+    sc = Script(budget=10 ** 6)
+    FakeRawSocket.current = sc
+    out_cases = []
+    with mock.patch("socket.socket", FakeRawSocket):
+        s = Socket()
+        for j, (body, chunks, end) in enumerate(calls):
+            frame = frame_of(body, salt=17 * j + 5)
+            sc.stream, sc.pos, sc.chunks, sc.recv_end, sc.recv_calls = frame, 0, list(chunks), end, []
+            sc.budget = len(frame) + 50
+            try:
+                data = s.receive()
+                out = {"kind": "bytes", "len": len(data), "eq": 1 if data == frame else 0}
+            except BudgetExceeded:
+                out = {"kind": "hang"}
+            except Exception as ex:
+                out = {"kind": "exc", "comm": 1 if isinstance(ex, CommError) else 0, "cls": type(ex).__name__}
+            out_cases.append({"op": "recv", "body": body, "flen": H + body, "calls": sc.recv_calls, "out": out,
+                              "script": {"chunks": list(chunks)[:40], "end": end or "none", "call": j + 1,
+                                         "before": [[b, list(c), e or "none"] for b, c, e in calls[:j]]}})
+            if out["kind"] == "hang":
+                break
+    return out_cases
 
 
 def run_send(mlen, accepts, end):
@@ -86,11 +116,32 @@ def from_model(ctx):
             cases.append(run_recv(body, ks, end))
         else:
             cases.append(run_send(body, ks, end))
+    # several receive() calls on the same Socket (the second after a complete frame or after a mid-frame socket error)
+    res = tlc.must_pass(tlc.run("SocketIO", "SocketIO_gen2.cfg", workers=1, timeout=900), "SocketIO_gen2")
+    ctx.add_tlc(res, "R2")
+    for _, mode, body, hist in res.tuples("BEH"):
+        if mode != "recv":
+            continue
+        calls = []
+        for k in hist:
+            if k >= 1000:
+                calls.append([k - 1000, [], None])
+            elif k > 0:
+                calls[-1][1].append(k)
+            else:
+                calls[-1][2] = "eof" if k == 0 else "err"
+        if len(calls) >= 2:
+            cases += run_recv_seq([tuple(c) for c in calls])
     return cases
 
 
 def seeded(ctx, rnd, thorough):
     cases = []
+    for flen in (24, 25, 60, 300, 4024):
+        for cut in sorted({1, 3, 4, 23, 24, 25, flen - 1} & set(range(1, flen))):
+            for end in ("err", "timeout"):
+                b2 = rnd.choice([0, 9, 33, 500])
+                cases += run_recv_seq([(flen - H, [cut], end), (b2, [rnd.randint(1, H + b2), H + b2], None), (5, [29], None)])
     lens = [24, 25, 27, 28, 47, 48, 255, 256, 257, 279, 280, 281, 511, 512, 535, 1024]
     if thorough:
         lens += [4024, 4025, 32767 + 24, 32768 + 24, 40000, 65535, 65535 + 24]
@@ -182,7 +233,8 @@ def run(ctx):
     ctx.rule = ("schedules = every behaviour of SocketIO_gen.cfg (bodies 0..3 / messages 1..6, <= 3 calls, EOF / error after "
                 "any call) + boundary classes for 16-23 frame lengths (first chunk 1/2/3/4/5/23/24/25, 256-blocks, last byte "
                 "alone, all-ones, seeded random compositions, each also cut by EOF / error / time-out at a seeded byte) + "
-                "partial-send patterns; distinct = distinct (operation, length, schedule); every case has >= 1 raw call or a fault")
+                "every 2-call receive sequence of SocketIO_gen2.cfg and seeded 3-call sequences on one Socket (second call after a "
+                "complete frame or after a mid-frame socket error / time-out) + partial-send patterns; distinct = distinct (operation, length, schedule); every case has >= 1 raw call or a fault")
     ctx.extra["from_model"] = n_model
     ctx.extra["seeded"] = len(cases) - n_model
     ctx.sample(cases[0])
@@ -209,7 +261,11 @@ def replay(path):
     rec = json.load(open(path))
     c = rec["replay"]["case"]
     sc = c["script"]
-    if c["op"] == "recv":
+    if c["op"] == "recv" and sc.get("call"):
+        seq = [(b, ch, None if e == "none" else e) for b, ch, e in sc["before"]]
+        seq.append((c["body"], [k for k in sc["chunks"] if isinstance(k, int)], None if sc["end"] == "none" else sc["end"]))
+        out = run_recv_seq(seq)[-1]
+    elif c["op"] == "recv":
         out = run_recv(c["body"], [k for k in sc["chunks"] if isinstance(k, int)], None if sc["end"] == "none" else sc["end"])
     else:
         out = run_send(c["mlen"], sc["accepts"], None if sc["end"] == "none" else sc["end"])
